@@ -1830,6 +1830,14 @@ def _readsegment(
             result += before
             return after, result
 
+        # An error reply is a single line whatever end token the caller is
+        # waiting for; without this a multi-byte end token never shows up and
+        # the read blocks until the socket times out.
+        if buf.startswith((b"ERROR", b"CLIENT_ERROR", b"SERVER_ERROR")):
+            line_end = buf.find(b"\r\n")
+            if line_end != -1:
+                return buf[line_end + 2 :], buf[:line_end]
+
         chunk = _recv(sock, RECV_SIZE)
         if not chunk:
             raise MemcacheUnexpectedCloseError()
